@@ -212,6 +212,9 @@ def do_call(t, c):
         elif n == 'update':
             kw = {k: dec(v) for k, v in c['kw']}
             if c['k'] is None: t.update(**kw)
+            elif c.get('bad') is not None:
+                seq = [tuple(p) for p in [[k, dec(v)] for k, v in c['ps']]]; seq.insert(c['bad'], 5)
+                t.update(seq if c['k'] == 'list' else tuple(seq), **kw)
             else: t.update(make_iter(c['k'], [[k, dec(v)] for k, v in c['ps']], pairs=True), **kw)
         elif n == 'setdefault': return t.setdefault(c['key'], dec(c['v']))
         elif n == 'pop': return t.pop(c['key'], None) if c['d'] else t.pop(c['key'])
@@ -405,7 +408,7 @@ def execute(env, attr, init, prog, created=False, source=None):
             if o == 'call':
                 c = op
                 mm = model_mut(c, y)
-                before_m = canon(y)
+                before_m = canon(y); old_items = list(y) if isinstance(y, list) else None
                 rerr = merr = None
                 try: do_call(x, c)
                 except Exception as ex: rerr = type(ex).__name__
@@ -415,7 +418,16 @@ def execute(env, attr, init, prog, created=False, source=None):
                     except Exception as ex: merr = type(ex).__name__
                     if rerr != merr: res.mirror_diffs.append({'at': idx, 'what': 'exception', 'real': rerr, 'mirror': merr})
                 if merr is not None and canon(y) != before_m:
-                    res.partial = True; res.model_valid = False
+                    res.partial = True
+                    if c['n'] == 'sort' and mm is not None and len(y) == len(old_items):
+                        # the sort raised after it had reordered the list: the model's `sortRaise` with the observed permutation
+                        used = set(); perm = []
+                        for item in y:
+                            j = next(i for i, o_ in enumerate(old_items) if o_ is item and i not in used)
+                            used.add(j); perm.append(j)
+                        mm = {'n': 'sortRaise', 'perm': perm}
+                    else:
+                        res.model_valid = False
                 if rerr is not None and rerr == merr and (canon(rootval()) != canon(st['mirror']) or canon(x) != canon(y)):
                     # both raised, but the part of the change that happened before the exception differs (Pony converts the iterable
                     # first, plain Python consumes it while changing the list): not the property; the program ends here
@@ -908,6 +920,21 @@ def witness_programs():
                 {'op': 'call', 't': 'dmut', 'n': 'setitem', 'var': 'r', 'key': 'z', 'v': 1}], False))
     out.append(('assign(array) then change', 'arr', [1, 2], [{'op': 'assign', 'v': [5, 6]}, {'op': 'flush'}, {'op': 'take', 'var': 'r', 'path': []},
                 {'op': 'call', 't': 'lmut', 'n': 'append', 'var': 'r', 'v': 7}], False))
+    # a mutator that raises after it has already changed the container; the caller catches the exception; the value in a new
+    # session must be the in-memory value
+    HET = {'$d': [['items', [1, 3, 2, None]], ['d', {'$d': []}]]}
+    out.append(('sort() of [1, 3, 2, None] (raises after reordering)', 'data', HET, [{'op': 'take', 'var': 'x', 'path': ['items']},
+                {'op': 'call', 't': 'lmut', 'n': 'sort', 'var': 'x', 'key': None, 'rev': False}], False))
+    out.append(('sort() raising, object already updated', 'data', HET, [{'op': 'take', 'var': 'x', 'path': ['items']}, {'op': 'call', 't': 'lmut', 'n': 'append', 'var': 'x', 'v': 0},
+                {'op': 'flush'}, {'op': 'call', 't': 'lmut', 'n': 'sort', 'var': 'x', 'key': None, 'rev': True}, {'op': 'commit'}], False))
+    out.append(('iadd(gen raising)', 'data', HET, [{'op': 'take', 'var': 'x', 'path': ['items']},
+                {'op': 'call', 't': 'lmut', 'n': 'iadd', 'var': 'x', 'k': 'gen', 'vs': [5, 6], 'boom': 1}], False))
+    out.append(('slice assignment from a raising iterable', 'data', HET, [{'op': 'take', 'var': 'x', 'path': ['items']},
+                {'op': 'call', 't': 'lmut', 'n': 'setslice', 'var': 'x', 'a': 1, 'b': 2, 'k': 'gen', 'vs': [5, 6], 'boom': 2}], False))
+    out.append(('update(bad pair)', 'data', HET, [{'op': 'take', 'var': 'x', 'path': ['d']},
+                {'op': 'call', 't': 'dmut', 'n': 'update', 'var': 'x', 'k': 'list', 'ps': [['z', 1]], 'kw': [], 'bad': 1}], False))
+    out.append(('ior(bad pair, tuple)', 'data', HET, [{'op': 'take', 'var': 'x', 'path': ['d']},
+                {'op': 'call', 't': 'dmut', 'n': 'ior', 'var': 'x', 'k': 'tuple', 'ps': [['z', 1], ['y', [2]]], 'bad': 2}], False))
     # created in the same session, before and after the first flush
     for fl in (False, True):
         out.append(('created%s' % ('+flush' if fl else ''), 'data', DOC, ([{'op': 'flush'}] if fl else []) +
